@@ -112,6 +112,9 @@ def resolve_graph(ctx):
     if out_used and len(out_used) == 1 and in_used and len(in_used) == 1 and out_used != in_used:
         g['children'] = next(iter(out_used))
         g['parents'] = next(iter(in_used))
+    elif 'children' in g['adj_fields'] and 'parents' in g['adj_fields']:
+        # the getters disagree with each other (that is what E4-side reports): fall back to the field names
+        g['children'], g['parents'] = 'children', 'parents'
     for k, v in g.items():
         ctx.roles.note('graph.' + k, v)
     return g
